@@ -69,22 +69,7 @@ def run(ctx):
     nm = repo.mod(NONTYPE)
     bf = nm.defs.get('beartype_func')
     ctx.require(bf is not None, 'anchor vanished: beartype_func')
-    fp = params_of(bf)[0]
-    ident = []
-    for i in walk_shallow(bf):
-        if isinstance(i, ast.If) and i.body and isinstance(i.body[-1], ast.Return):
-            ident.append((norm(i.test), dotted(i.body[-1].value)))
-    want = {'is_func_unbeartypeable(func_wrapper)': 'unbeartypeable callable', 'not func_wrapper_code': 'empty wrapper code'}
-    for test, why in want.items():
-        hit = [r for t, r in ident if t == test]
-        ctx.ob('C13.R3', f'beartype_func:no-op:{test}', nm.where(bf), f'{why} ⇒ the callable itself is returned',
-               hit == [fp], f'returns {hit}')
-    o0 = [i for i in walk_shallow(bf) if isinstance(i, ast.If) and 'BeartypeStrategy.O0' in norm(i.test)]
-    unb = [i for i in walk_shallow(bf) if isinstance(i, ast.If) and norm(i.test) == 'is_func_unbeartypeable(func_wrapper)']
-    ok = bool(o0) and bool(unb) and o0[0].lineno < unb[0].lineno and any(
-        isinstance(c, ast.Call) and dotted(c.func) == 'no_type_check' for c in ast.walk(o0[0]))
-    ctx.ob('C13.R3', 'beartype_func:O0-marks-no_type_check-first', nm.where(bf),
-           'under O0 the callable is marked @no_type_check before the unbeartypeable test', ok, '')
+    _func_route(ctx)
     um = repo.mod(BEARFUNC)
     uf = um.defs.get('is_func_unbeartypeable')
     ctx.require(uf is not None, 'anchor vanished: is_func_unbeartypeable')
@@ -119,27 +104,6 @@ def run(ctx):
     ctx.rule('C13.R5', 'beartype_func passes func_wrapped= to make_func, which reaches functools.update_wrapper; the '
              'attribute written by set_func_beartyped is the one is_func_beartyped tests, and that test is one of '
              'the no-op conditions')
-    mk = [c for c in walk_shallow(bf) if isinstance(c, ast.Call) and dotted(c.func) == 'make_func']
-    ok = len(mk) == 1 and any(k.arg == 'func_wrapped' for k in mk[0].keywords)
-    ctx.ob('C13.R5', 'beartype_func:func_wrapped-passed', nm.where(bf), 'the wrapper is built with func_wrapped=', ok, '')
-    # ... and what it exposes as __wrapped__ is the callable that was decorated (the class-dictionary entry
-    # itself), not something unwrapped from it
-    val = next((norm(k.value) for c in mk for k in c.keywords if k.arg == 'func_wrapped'), None)
-    cd = repo.mod('beartype._check.cls.call.calldatadecorfunc')
-    ri = repo.find_def(cd.name, 'BeartypeCallDecorFuncData.reinit')
-    src_ok = False
-    if val is not None and val.startswith('decor_func.'):
-        attr = val.split('.', 1)[1]
-        sets = [a for a in walk_shallow(ri) if isinstance(a, ast.Assign) and norm(a.targets[0]) == f'self.{attr}']
-        # the attribute is set from reinit()'s own func_wrapper parameter, which defaults to the decorated callable
-        dflt = [a for a in ast.walk(ri) if isinstance(a, ast.Assign) and norm(a.targets[0]) == 'func_wrapper' and norm(a.value) == 'func_wrappee']
-        src_ok = len(sets) == 1 and norm(sets[0].value) == 'func_wrapper' and 'func_wrapper' in params_of(ri) and 'func_wrappee' in params_of(ri) \
-            and len(dflt) == 1
-    ctx.ob('C13.R5', 'beartype_func:__wrapped__-is-the-decorated-callable', nm.where(bf),
-           'func_wrapped= is the callable that was passed to the decorator (reinit()\'s func_wrapper parameter, which '
-           'defaults to the decorated callable)', src_ok,
-           f'func_wrapped={val}: name, docstring, attributes and __wrapped__ of the wrapper come from another object '
-           f'than the one that was decorated')
     mm = repo.mod('beartype._util.func.utilfuncmake')
     mf = mm.defs.get('make_func')
     ctx.require(mf is not None, 'anchor vanished: make_func')
@@ -158,9 +122,6 @@ def run(ctx):
     ctx.ob('C13.R5', 'beartyped-marker:writer-reader-agree', um.where(sf),
            'set_func_beartyped writes the attribute is_func_beartyped reads', bool(written) and written <= read | written and bool(written & read),
            f'written {sorted(written)}, read {sorted(read)}')
-    marks = [c for c in walk_shallow(bf) if isinstance(c, ast.Call) and dotted(c.func) == 'set_func_beartyped']
-    ctx.ob('C13.R5', 'beartype_func:marks-wrapper', nm.where(bf), 'the generated wrapper is marked as beartyped',
-           len(marks) == 1 and marks[0].args and dotted(marks[0].args[0]) == dotted(mk[0]._parent.targets[0]) if mk and isinstance(getattr(mk[0], '_parent', None), ast.Assign) else bool(marks), '')
 
     # ---- R6 ----------------------------------------------------------------------
     # the "already beartyped" marker lives in the wrapper's __dict__, which functools.wraps copies: a reader that
@@ -673,3 +634,153 @@ def _decorator_modes(ctx, RULE):
         F.patch_global(DC, 'BEARTYPE_CONF_DEFAULT', old_default)
         F.stubs.clear()
         F.stubs.update(saved_stubs)
+
+
+def _func_route(ctx):
+    """R3 / R5 by interpretation: beartype_func over abstract callables × no-op conditions."""
+    from sa.fold import AObj, FuncVal, Sym, _Abort, _Raise, _call_function
+    from sa.gen import AConf
+    from . import _gen
+    repo = ctx.repo
+    F = _gen.engines(ctx)[0].f
+    nm = repo.mod(NONTYPE)
+    fn = F.const(NONTYPE, 'beartype_func')
+    ctx.require(isinstance(fn, FuncVal), 'anchor vanished: beartype_func')
+    cenum = repo.mod('beartype._conf.confenum')
+    O0 = F.eval_in(cenum, ast.parse('BeartypeStrategy.O0', mode='eval').body)
+    O1 = F.eval_in(cenum, ast.parse('BeartypeStrategy.O1', mode='eval').body)
+
+    class _Fn(AObj):
+        _track_attribute_stores = True
+
+        def __init__(self, name):
+            self.name = name
+            self.__name__ = self.__qualname__ = name
+
+        def __call__(self, *a, **k):
+            return None
+
+        def __repr__(self):
+            return f'<function {self.name}>'
+
+    class _Decor(AObj):
+        def __init__(self, kw):
+            self.func_wrappee, self.func_wrapper, self.conf = kw.get('func_wrappee'), kw.get('func_wrapper'), kw.get('conf')
+            self.func_wrappee_wrappee = _Fn('innermost-unwrapped')
+            self.func_wrapper_name, self.func_wrapper_locals = 'f', {}
+            self.label_func_wrapper = 'labeller'
+
+        def set_func_annotations_if_dirty(self):
+            return None
+    saved_stubs, saved_ext, saved_b, saved_i = dict(F.stubs), dict(F.ext_stubs), F.builtin_hook, F.isinstance_hook
+    cond = {}
+    made = []
+    NOOPS = {
+        'python -O': 'beartype._util.py.utilpyinterpreter.is_python_optimized',
+        'unannotated': 'beartype._util.hint.pep.proposal.pep749.pep649749annotate.get_hintable_pep649749_annotations_or_none',
+        'blacklisted': 'beartype._util.bear.utilbearblack.is_object_blacklisted',
+        'jaxtyped': 'beartype._util.api.external.utiljaxtyping.is_func_jaxtyped',
+        'sphinx autodoc': 'beartype._util.api.external.utilsphinx.is_sphinx_autodocing',
+    }
+    for what, q in NOOPS.items():
+        if what == 'unannotated':
+            F.stubs[q] = lambda e, a, k: (None if cond.get('unannotated') else {'x': 'int'})
+        else:
+            F.stubs[q] = (lambda what: lambda e, a, k: bool(cond.get(what)))(what)
+    F.stubs['beartype._util.func.pep.utilfuncpep484.is_func_pep484_notypechecked'] = \
+        lambda e, a, k: bool(getattr(a[0], '__no_type_check__', False))
+    # (defined under a Python-version test at module level: patched where it is used)
+    from sa.fold import _PyCallable
+    old_ann = F.patch_global(BEARFUNC, 'get_hintable_pep649749_annotations_or_none',
+                             _PyCallable(lambda *a, **k: (None if cond.get('unannotated') else {'x': 'int'})))
+
+    def ntc(env, a, k):
+        a[0].__no_type_check__ = True
+        return a[0]
+    F.ext_stubs['typing.no_type_check'] = ntc
+    F.stubs['beartype._check.cls.call.calldatadecorfunc.make_decor_func'] = lambda e, a, k: _Decor(k)
+    F.stubs['beartype._check.cls.call.calldatadecorfunc.cull_decor_func'] = lambda e, a, k: None
+    F.stubs['beartype._decor._nontype._wrap.wrapmain.generate_code'] = lambda e, a, k: ('' if cond.get('no code') else 'def f(...): ...')
+    F.stubs['beartype._util.func.utilfuncscope.get_func_globals'] = lambda e, a, k: {'__builtins__': {'len': 1}}
+
+    def mk(env, a, k):
+        w = _Fn('generated wrapper')
+        w.made_with = dict(k)
+        made.append(w)
+        return w
+    F.stubs['beartype._util.func.utilfuncmake.make_func'] = mk
+
+    def bh(name, args, kw):
+        if name == 'callable' and args and isinstance(args[0], _Fn):
+            return True
+        if name in ('hasattr', 'getattr', 'setattr') and args and isinstance(args[0], _Fn) and isinstance(args[1], str):
+            if name == 'hasattr':
+                return args[1] in vars(args[0])
+            if name == 'setattr':
+                setattr(args[0], args[1], args[2])
+                return None
+            return vars(args[0]).get(args[1], *args[2:3]) if (args[1] in vars(args[0]) or len(args) > 2) else NotImplemented
+        return saved_b(name, args, kw) if saved_b else NotImplemented
+    F.builtin_hook = bh
+    F.isinstance_hook = lambda o, c: (True if isinstance(o, AConf) else (saved_i(o, c) if saved_i else None))
+
+    def run(func, conf, **kw):
+        del made[:]
+        try:
+            return _call_function(F, fn, [], dict(func=func, conf=conf, **kw), 1)
+        except (_Abort, _Raise) as ex:
+            ctx.require(False, f'cannot interpret beartype_func: {ex}')
+    try:
+        for what in list(NOOPS) + ['@no_type_check', 'strategy O0', 'no code', 'already a beartype wrapper']:
+            cond.clear()
+            f = _Fn('f')
+            conf = AConf(strategy=O0 if what == 'strategy O0' else O1, is_debug=False)
+            if what == '@no_type_check':
+                f.__no_type_check__ = True
+            elif what == 'already a beartype wrapper':
+                f = run(_Fn('g'), conf)
+                ctx.require(isinstance(f, _Fn) and f.name == 'generated wrapper', 'beartype_func did not yield a wrapper to re-decorate')
+            else:
+                cond[what] = True
+            out = run(f, conf)
+            ctx.ob('C13.R3', f'beartype_func:no-op:{what}', nm.where(fn.node),
+                   f'{what}: the callable itself is returned and no wrapper is made', out is f and not made,
+                   f'evaluates to {out!r}; wrappers made: {len(made)}')
+            if what in ('strategy O0', 'already a beartype wrapper'):
+                continue
+            # … also when the callable is decorated on behalf of a descriptor-level wrapper of it
+            fw = _Fn('descriptor-level wrapper')
+            if what == '@no_type_check':
+                fw.__no_type_check__ = True
+            out = run(f, conf, func_wrapper=fw)
+            ctx.ob('C13.R3', f'beartype_func:no-op:{what}:func_wrapper-given', nm.where(fn.node),
+                   f'{what}: the callable that was passed (not its descriptor-level wrapper) is returned', out is f and not made,
+                   f'evaluates to {out!r}; wrappers made: {len(made)}')
+        cond.clear()
+        for given_wrapper in (False, True):
+            f = _Fn('f')
+            fw = _Fn('descriptor-level wrapper') if given_wrapper else None
+            conf = AConf(strategy=O1, is_debug=False)
+            out = run(f, conf, **({'func_wrapper': fw} if given_wrapper else {}))
+            tag = 'func_wrapper-given' if given_wrapper else 'plain'
+            ok = len(made) == 1 and out is made[0]
+            ctx.ob('C13.R5', f'beartype_func:returns-the-generated-wrapper:{tag}', nm.where(fn.node),
+                   'an annotated callable is replaced by the generated wrapper', ok, f'evaluates to {out!r}')
+            if not ok:
+                continue
+            want = fw if given_wrapper else f
+            ctx.ob('C13.R5', f'beartype_func:__wrapped__-is-the-decorated-callable:{tag}', nm.where(fn.node),
+                   'the wrapper is built with func_wrapped= the callable that was decorated (name, docstring, attributes and '
+                   '__wrapped__ come from it)', getattr(out.made_with.get('func_wrapped'), 'fn', out.made_with.get('func_wrapped')) is want,
+                   f'func_wrapped={getattr(out.made_with.get("func_wrapped"), "fn", out.made_with.get("func_wrapped"))!r}, decorated callable {want!r}')
+            ctx.ob('C13.R5', f'beartype_func:marks-wrapper:{tag}', nm.where(fn.node),
+                   'the generated wrapper is marked so that decorating it again is a no-op',
+                   any(k.startswith('__beartype') or k.startswith('_') and 'beartype' in k for k in vars(out) if k not in ('made_with',)),
+                   f'attributes set on the wrapper: {sorted(k for k in vars(out) if k not in ("made_with", "name", "__name__", "__qualname__"))}')
+    finally:
+        F.builtin_hook, F.isinstance_hook = saved_b, saved_i
+        F.patch_global(BEARFUNC, 'get_hintable_pep649749_annotations_or_none', old_ann)
+        F.stubs.clear()
+        F.stubs.update(saved_stubs)
+        F.ext_stubs.clear()
+        F.ext_stubs.update(saved_ext)
